@@ -277,6 +277,13 @@ func IsEntityEqual(prevJson []byte, thisJson []byte, prevEntity *Entity, thisEnt
 
 	// assuming that the length check is enough to determine that refs and props have the same keys
 	// it is theoretically possible to have the same json length with different keys ... consider matching keys in both objects as well.
+	// e.g. a tombstone followed by an un-delete that adds a 15 byte property: compare the deleted flag and the key counts too.
+	if prevEntity.IsDeleted != thisEntity.IsDeleted {
+		return false
+	}
+	if len(prevEntity.References) != len(thisEntity.References) || len(prevEntity.Properties) != len(thisEntity.Properties) {
+		return false
+	}
 	for i, v := range prevEntity.References {
 		thisVal, ok := thisEntity.References[i]
 		if !ok {
